@@ -1,10 +1,12 @@
 ------------------------------ MODULE NslArith ------------------------------
 (***************************************************************************)
-(* Value algebra of NSL's scalar core, shared by the source semantics      *)
+(* Value algebra of NSL's scalars, shared by the source semantics          *)
 (* (NslSem), the IR machine (IRMachine) and the enumeration models.        *)
 (*                                                                         *)
-(* Values are tagged records so that int 5 and float 5.0 differ:           *)
-(*   [t |-> "int", v |-> 5]                                                *)
+(* Scalar values are tagged records so that int 5, uint 5 and float 5.0    *)
+(* differ:                                                                 *)
+(*   [t |-> "int",   v |-> 5]                                              *)
+(*   [t |-> "uint",  v |-> 5]                                              *)
 (*   [t |-> "float", n |-> 5, e |-> 0]      meaning n * 2^-e (normalised)  *)
 (* TLC integers are 32 bit and TLC aborts on overflow, so every operation  *)
 (* tests operand magnitudes first and yields OOD ("outside the property's  *)
@@ -21,15 +23,19 @@ RECURSIVE Pow2(_)
 Pow2(k) == IF k = 0 THEN 1 ELSE 2 * Pow2(k - 1)
 
 IntV(v) == [t |-> "int", v |-> v]
+UIntV(v) == [t |-> "uint", v |-> v]
 RECURSIVE Norm(_, _)
 Norm(n, e) == IF e > 0 /\ n % 2 = 0 THEN Norm(n \div 2, e - 1) ELSE [t |-> "float", n |-> n, e |-> e]
 FloatV(n, e) == Norm(n, e)
 OOD == [t |-> "ood"]
 DIVZERO == [t |-> "divzero"]
+OOB == [t |-> "oob"]
+ILL == [t |-> "ill"]           \* ill-typed / outside what the specification defines
 IsOOD(x) == x.t = "ood"
-IsBad(x) == x.t \in {"ood", "divzero", "oob"}
-IsNum(x) == x.t \in {"int", "float"}
-ToF(x) == IF x.t = "int" THEN [t |-> "float", n |-> x.v, e |-> 0] ELSE x
+IsBad(x) == x.t \in {"ood", "divzero", "oob", "ill"}
+IsI(x) == x.t \in {"int", "uint"}
+IsNum(x) == x.t \in {"int", "uint", "float"}
+ToF(x) == IF IsI(x) THEN [t |-> "float", n |-> x.v, e |-> 0] ELSE x
 MulOk(a, b) == b = 0 \/ Abs(a) <= MaxI \div Abs(b)
 TruncDiv(a, b) == LET q == Abs(a) \div Abs(b) IN IF (a < 0) = (b < 0) THEN q ELSE -q
 IsPow2(n) == n > 0 /\ \E k \in 0..30 : Pow2(k) = n
@@ -40,8 +46,8 @@ Align(a, b) == LET m == IF a.e > b.e THEN a.e ELSE b.e
                    sa == Pow2(m - a.e)  sb == Pow2(m - b.e) IN
                IF MulOk(a.n, sa) /\ MulOk(b.n, sb) THEN [ok |-> TRUE, x |-> a.n * sa, y |-> b.n * sb, e |-> m]
                ELSE [ok |-> FALSE]
-B(c) == IntV(IF c THEN 1 ELSE 0)
-Truth(x) == IF x.t = "int" THEN x.v # 0 ELSE x.n # 0
+Bv(c) == IntV(IF c THEN 1 ELSE 0)
+Truth(x) == IF IsI(x) THEN x.v # 0 ELSE x.n # 0
 
 CmpOps == {"<", "<=", ">", ">=", "==", "!="}
 LogOps == {"&&", "||"}
@@ -55,9 +61,9 @@ FloatOp(op, a, b) ==
      IF ~al.ok THEN OOD ELSE
      CASE op = "+" -> IF Abs(al.x + al.y) > MaxI THEN OOD ELSE Norm(al.x + al.y, al.e)
        [] op = "-" -> IF Abs(al.x - al.y) > MaxI THEN OOD ELSE Norm(al.x - al.y, al.e)
-       [] op = "<" -> B(al.x < al.y)   [] op = "<=" -> B(al.x <= al.y)
-       [] op = ">" -> B(al.x > al.y)   [] op = ">=" -> B(al.x >= al.y)
-       [] op = "==" -> B(al.x = al.y)  [] op = "!=" -> B(al.x # al.y)
+       [] op = "<" -> Bv(al.x < al.y)   [] op = "<=" -> Bv(al.x <= al.y)
+       [] op = ">" -> Bv(al.x > al.y)   [] op = ">=" -> Bv(al.x >= al.y)
+       [] op = "==" -> Bv(al.x = al.y)  [] op = "!=" -> Bv(al.x # al.y)
   ELSE IF op = "*" THEN
      IF MulOk(a.n, b.n) /\ a.e + b.e <= MaxE THEN Norm(a.n * b.n, a.e + b.e) ELSE OOD
   ELSE IF op = "/" THEN
@@ -68,8 +74,8 @@ FloatOp(op, a, b) ==
               num == a.n * s  sh == Pow2(b.e) IN
           IF ~MulOk(num, sh) \/ a.e + k > MaxE + 30 THEN OOD
           ELSE LET r == Norm(num * sh, a.e + k) IN IF r.e > MaxE THEN OOD ELSE r
-  ELSE IF op = "&&" THEN B(a.n # 0 /\ b.n # 0)
-  ELSE IF op = "||" THEN B(a.n # 0 \/ b.n # 0)
+  ELSE IF op = "&&" THEN Bv(a.n # 0 /\ b.n # 0)
+  ELSE IF op = "||" THEN Bv(a.n # 0 \/ b.n # 0)
   ELSE OOD                                         \* % on floats: no property fixes it
 
 IntOp(op, a, b) ==
@@ -78,26 +84,29 @@ IntOp(op, a, b) ==
     [] op = "*" -> IF MulOk(a, b) THEN IntV(a * b) ELSE OOD
     [] op = "/" -> IF b = 0 THEN DIVZERO ELSE IntV(TruncDiv(a, b))
     [] op = "%" -> IF b = 0 THEN DIVZERO ELSE IF a < 0 \/ b < 0 THEN OOD ELSE IntV(a % b)
-    [] op = "<" -> B(a < b)  [] op = "<=" -> B(a <= b) [] op = ">" -> B(a > b) [] op = ">=" -> B(a >= b)
-    [] op = "==" -> B(a = b) [] op = "!=" -> B(a # b)
-    [] op = "&&" -> B(a # 0 /\ b # 0) [] op = "||" -> B(a # 0 \/ b # 0)
+    [] op = "<" -> Bv(a < b)  [] op = "<=" -> Bv(a <= b) [] op = ">" -> Bv(a > b) [] op = ">=" -> Bv(a >= b)
+    [] op = "==" -> Bv(a = b) [] op = "!=" -> Bv(a # b)
+    [] op = "&&" -> Bv(a # 0 /\ b # 0) [] op = "||" -> Bv(a # 0 \/ b # 0)
 
-\* Conversion of a scalar value to a scalar type kind ("int" | "uint" | "float").
-\* float -> int is fixed by no property for non-integral values: OOD.  uint is modelled
-\* as int restricted to non-negative values (negative -> OOD).
+\* Conversion of a scalar value to a scalar kind ("int" | "uint" | "float").
+\* float -> integer is fixed by no property for non-integral values: OOD.  uint is modelled
+\* as the non-negative integers (a negative value has no uint counterpart any property fixes: OOD).
 ConvK(k, x) == IF IsBad(x) THEN x
                ELSE IF k = "float" THEN ToF(x)
-               ELSE LET i == IF x.t = "int" THEN x ELSE IF x.e = 0 THEN IntV(x.n) ELSE OOD IN
-                    IF IsOOD(i) THEN OOD ELSE IF k = "uint" /\ i.v < 0 THEN OOD ELSE i
+               ELSE IF ~IsI(x) /\ x.e # 0 THEN OOD
+               ELSE LET i == IF IsI(x) THEN x.v ELSE x.n IN
+                    IF Abs(i) > MaxI THEN OOD
+                    ELSE IF k = "uint" THEN (IF i < 0 THEN OOD ELSE UIntV(i)) ELSE IntV(i)
 
-\* a op b where both operands have already been converted to operand kind ok
-\* ("int"/"uint"/"float") and the result has kind rk.
+\* a op b where the operands are converted to kind ok and the result has kind rk
+\* (ok, rk come from NslTypes!ResolveBinary)
 ScalarOp(op, ok, rk, a, b) ==
-  IF IsBad(a) THEN a ELSE IF IsBad(b) THEN b ELSE
-  LET r == IF ok = "float" THEN FloatOp(op, ToF(a), ToF(b)) ELSE IntOp(op, a.v, b.v) IN
+  LET x == ConvK(ok, a)  y == ConvK(ok, b) IN
+  IF IsBad(x) THEN x ELSE IF IsBad(y) THEN y ELSE
+  LET r == IF ok = "float" THEN FloatOp(op, x, y) ELSE IntOp(op, x.v, y.v) IN
   IF IsBad(r) THEN r ELSE ConvK(rk, r)
 
-\* dynamic version used where no static types are available (all-int contexts)
+\* dynamic version used where no static types are needed (all-int contexts)
 BinOp(op, a, b) == IF a.t = "int" /\ b.t = "int" THEN IntOp(op, a.v, b.v) ELSE FloatOp(op, ToF(a), ToF(b))
 
 NumEq(a, b) == \/ a = b
